@@ -1,6 +1,7 @@
 package gen
 
 import (
+	"encoding/json"
 	"testing"
 
 	"pgregory.net/rapid"
@@ -57,4 +58,28 @@ func TestGeneratedValuesAreWhatTheyClaim(t *testing.T) {
 			}
 		}
 	})
+}
+
+func TestValJSONLossless(t *testing.T) {
+	for _, s := range []string{"a", "\x00", "\xff\xfe", "é\xc3", ""} {
+		v := Quoted(s)
+		raw, err := json.Marshal(&Node{K: NTerm, V: v})
+		if err != nil {
+			t.Fatal(err)
+		}
+		var n Node
+		if err := json.Unmarshal(raw, &n); err != nil {
+			t.Fatal(err)
+		}
+		if n.V.S != s || n.V.Src != v.Src {
+			t.Errorf("%q came back as %q / %q", s, n.V.S, n.V.Src)
+		}
+		tk := Term(v)
+		raw, _ = json.Marshal(tk)
+		var t2 Tok
+		_ = json.Unmarshal(raw, &t2)
+		if t2.Text != tk.Text || t2.Val.S != s {
+			t.Errorf("token %q came back as %q", tk.Text, t2.Text)
+		}
+	}
 }
